@@ -191,6 +191,15 @@ class Gen:
                     self.emit(file, "nop")
                 self.p.features.add("nested")
                 brace = (file, len(self.p.lines[file]) - 2, len(self.p.lines[file][-2]) - 1)
+                if self.macros and file == "main.asm" and assembled and not in_macro and rng.random() < 0.2:
+                    ctx = rng.choice(self.macros)
+                    mname = ctx["def"].name
+                    if mname not in sub.defs:
+                        ln3 = self.emit(file, "%s: nop" % mname)
+                        dl = self.add_def(mname, "label", sub, file, ln3, 0, assembled)
+                        dl.tagline = (file, ln3)
+                        self.gen_invocation(file, sub, ctx)
+                        self.p.features.add("macro_name_shadowed_by_label")
                 self.gen_block(file, sub, depth + 1, budget - 1, assembled, in_macro)
                 if rng.random() < 0.35 and assembled and not in_macro:
                     ln = self.emit(file, "jmp -")
@@ -383,8 +392,12 @@ class Gen:
             form = rng.choice(["word", "word", "lda"])
             text = (".word " if form == "word" else "lda ") + ".".join(path)
             col = 6 if form == "word" else 4
+        # `super` is recognised in any case (SUPER.x, Super.x); other identifiers are case-sensitive
+        shown = [rng.choice(["SUPER", "Super", "sUPER"]) if (seg == "super" and rng.random() < 0.3) else seg for seg in path]
+        text = text.replace(".".join(path), ".".join(shown))
         self.p.lines[file][ln] = text
         u = Use(file, ln, form, path, scope, assembled)
+        u.shown = shown
         u.in_macro = ctx
         u.target_hint = target
         self.p.uses.append(u)
@@ -392,7 +405,7 @@ class Gen:
             role = "use" if i == len(path) - 1 else ("superseg" if seg == "super" else "seg")
             if seg == "super" and i == len(path) - 1:
                 role = "superseg"
-            o = Occ(file, ln, col, seg, role, path=path, index=i, stmt=u, assembled=assembled)
+            o = Occ(file, ln, col, shown[i], role, path=path, index=i, stmt=u, assembled=assembled)
             if isinstance(special, tuple) and special[0] == "param" and not ctx["invoked"]:
                 o.role = "param_uninvoked"
             self.p.occs.append(o)
@@ -403,6 +416,18 @@ class Gen:
         root = Scope("file", None, fname)
         self.p.roots[fname] = root
         self.gen_block(fname, root, 1, 2, True, None)
+        # a use of a top-level name on the last line: main.asm gets a use of the same name at the same line and column
+        tops = [d for d in root.defs.values() if d.kind in ("label", "const", "var", "scope")]
+        root.twin = None
+        if tops and self.rng.random() < 0.7:
+            d = self.rng.choice(tops)
+            ln = self.emit(fname, ".word " + d.name)
+            u = Use(fname, ln, "word", [d.name], root, True)
+            u.shown = [d.name]
+            u.target_hint = d
+            self.p.uses.append(u)
+            self.p.occs.append(Occ(fname, ln, 6, d.name, "use", path=[d.name], index=0, stmt=u))
+            root.twin = (d, ln)
         return root
 
     # ----------------------------------------------------------------- whole project
@@ -486,6 +511,21 @@ class Gen:
                         p.aliases.append((d.name, d))
                         root.defs[d.name] = d
                     p.features.add("import_star")
+        for fname, froot in imports:
+            tw = getattr(froot, "twin", None)
+            if tw and root.defs.get(tw[0].name) is tw[0]:
+                d, ll = tw
+                cur = len(p.lines[main])
+                if cur <= ll <= cur + 25:
+                    for _ in range(ll - cur):
+                        self.emit(main, "nop")
+                    ln = self.emit(main, ".word " + d.name)
+                    u = Use(main, ln, "word", [d.name], root, True)
+                    u.shown = [d.name]
+                    u.target_hint = d
+                    p.uses.append(u)
+                    p.occs.append(Occ(main, ln, 6, d.name, "use", path=[d.name], index=0, stmt=u))
+                    p.features.add("same_range_in_two_files")
         self.import_use_slots = []
         for _ in range(len(p.aliases) and rng.randrange(1, 4)):
             ln = self.emit(main, None)
